@@ -1313,5 +1313,5 @@ var families = []struct {
 	gen  func(R *rand.Rand) modelCase
 }{
 	{"S", genScan}, {"P", genPrev}, {"R", genResolve}, {"W", genPages}, {"T", genTree}, {"O", genOutline}, {"X", genXRef},
-	{"G", genObjStm}, {"N", genNest}, {"J", genIndex}, {"D", genDecode},
+	{"G", genObjStm}, {"N", genNest}, {"J", genIndex}, {"D", genDecode}, {"JD", genIndexDCT},
 }
